@@ -557,7 +557,8 @@ async fn remote<P: Protocol>(
         } else {
             AwaitingWill::Cancel
         };
-        sender.try_send(awaiting_will).unwrap();
+        // the previous task may be gone already (its link failed before it started)
+        sender.try_send(awaiting_will).ok();
     }
 
     let (will_tx, will_rx) = flume::bounded::<AwaitingWill>(1);
